@@ -269,11 +269,15 @@ def setup(world, sc):
         sim.rx_armed = sim.tt1_armed = False
 
 
-def outcome(world, sc):
+USE_SCENARIO = object()
+
+
+def outcome(world, sc, timeout=USE_SCENARIO):
     """run one ContactlessFrontend.exchange; returns (tag, detail) where tag is 'ok' or the
     fully qualified exception class name"""
+    world.clock.restart()
     try:
-        r = world.clf.exchange(sc.send, sc.timeout)
+        r = world.clf.exchange(sc.send, sc.timeout if timeout is USE_SCENARIO else timeout)
     except BaseException as e:  # noqa: everything is an observation here
         t = type(e)
         return 'exc', t, e
